@@ -57,6 +57,8 @@ TASK_FILES["C19"] = "circuitgraph/tx.py"
 L2_TASKS = ["layer2/add_subcircuit[no connections]", "layer2/add_subcircuit[no connections,literal name]", "layer2/add_subcircuit[no connections,strip_io=False]", "layer2/add_subcircuit[1 connection]"]
 PROPERTY_TASKS["C04"] = PROPERTY_TASKS["C04"] + L2_TASKS[:2]
 L2_BB = ["layer2/add_blackbox[no connections]"]
-PROPERTY_TASKS["C06"] = L2_TASKS + L2_BB + ["layer1/Circuit.copy"]
-PROPERTY_TASKS["C07"] = PROPERTY_TASKS["C07"] + L2_TASKS + L2_BB + ["C07/add_blackbox", "C07/add_subcircuit[no connections]", "C07/add_subcircuit[1 connection]"]
+PROPERTY_TASKS["C06"] = L2_TASKS + L2_BB + ["layer1/Circuit.copy", "C07/fill_blackbox on the body"]
+PROPERTY_TASKS["C07"] = PROPERTY_TASKS["C07"] + L2_TASKS + L2_BB + ["C07/add_blackbox", "C07/add_subcircuit[no connections]", "C07/add_subcircuit[1 connection]",
+                                                                      "C07/add_blackbox[connections] on the body", "C07/add_subcircuit[connections] on the body",
+                                                                      "C07/fill_blackbox on the body", "C07/set_output[list] on the body"]
 TASK_FILES["layer2"] = "circuitgraph/circuit.py"
